@@ -14,17 +14,28 @@ histories for a failing input and reports the violation either way).
 namespace SaoVerif
 
 theorem C01_decision_skeleton_as_modelled :
-    Generated.Skel.x_did_keeper_msg_server_binding_go = Expected.Skel.x_did_keeper_msg_server_binding_go ∧
-    Generated.Skel.x_did_keeper_msg_server_update_go = Expected.Skel.x_did_keeper_msg_server_update_go ∧
-    Generated.Skel.x_node_keeper_hooks_go = Expected.Skel.x_node_keeper_hooks_go ∧
-    Generated.Skel.x_node_keeper_reputation_go = Expected.Skel.x_node_keeper_reputation_go ∧
-    Generated.Skel.x_node_keeper_node_go = Expected.Skel.x_node_keeper_node_go ∧
-    Generated.Skel.x_node_abci_go = Expected.Skel.x_node_abci_go ∧
-    Generated.Skel.x_sao_keeper_msg_server_terminate_go = Expected.Skel.x_sao_keeper_msg_server_terminate_go ∧
-    Generated.Skel.x_model_keeper_data_management_go = Expected.Skel.x_model_keeper_data_management_go ∧
-    Generated.Skel.x_sao_keeper_expired_shard_go = Expected.Skel.x_sao_keeper_expired_shard_go ∧
-    Generated.Skel.x_did_keeper_utils_go = Expected.Skel.x_did_keeper_utils_go ∧
-    Generated.Skel.app_app_go = Expected.Skel.app_app_go := by
+    [Generated.Skel.x_did_keeper_msg_server_binding_go,
+     Generated.Skel.x_did_keeper_msg_server_update_go,
+     Generated.Skel.x_node_keeper_hooks_go,
+     Generated.Skel.x_node_keeper_reputation_go,
+     Generated.Skel.x_node_keeper_node_go,
+     Generated.Skel.x_node_abci_go,
+     Generated.Skel.x_sao_keeper_msg_server_terminate_go,
+     Generated.Skel.x_model_keeper_data_management_go,
+     Generated.Skel.x_sao_keeper_expired_shard_go,
+     Generated.Skel.x_did_keeper_utils_go,
+     Generated.Skel.app_app_go] =
+    [Expected.Skel.x_did_keeper_msg_server_binding_go,
+     Expected.Skel.x_did_keeper_msg_server_update_go,
+     Expected.Skel.x_node_keeper_hooks_go,
+     Expected.Skel.x_node_keeper_reputation_go,
+     Expected.Skel.x_node_keeper_node_go,
+     Expected.Skel.x_node_abci_go,
+     Expected.Skel.x_sao_keeper_msg_server_terminate_go,
+     Expected.Skel.x_model_keeper_data_management_go,
+     Expected.Skel.x_sao_keeper_expired_shard_go,
+     Expected.Skel.x_did_keeper_utils_go,
+     Expected.Skel.app_app_go] := by
   decide +kernel
 
 end SaoVerif
